@@ -4,3 +4,7 @@
     pub open spec fn wf(&self) -> bool {
         forall|t: Txid| #[trigger] self.issued_receipts@.contains_key(t) ==> !(self.issued_receipts@[t] matches ConfirmationStatus::ConfirmedIn(_))
     }
+    // every memoised rejection was pronounced by the node: a `Rejected` verdict is backed by a rejected submission in the log
+    pub open spec fn rc_ok(&self) -> bool {
+        forall|t: Txid| #[trigger] self.issued_receipts@.contains_key(t) && self.issued_receipts@[t] is Rejected ==> rejected_call(self.bitcoin_cli.calls, t)
+    }
